@@ -8,7 +8,7 @@ from . import detsched, progs
 from .common import Violation
 
 KINDS = ('stp', 'lpm', 'pf', 'pm', 'pf2')
-EXCS = ('VErrA', 'VErrB', 'VErrC', 'VBase', 'IndexError', 'FilterException', 'TypeError', 'VFalsy')
+EXCS = ('VErrA', 'VErrB', 'VErrC', 'VBase', 'IndexError', 'FilterException', 'TypeError', 'KeyError', 'VFalsy')
 
 
 class Trace:
@@ -198,6 +198,14 @@ def run_case(case, trace_lines=True):
             base = lazy_dataset.new({key_of(i): v for i, v in enumerate(vals)})
             sel = base[[key_of(i) for i in range(n)]]
             ds = base.key_zip(sel).map(lambda t: t[0])
+        elif case.get('src') == 'keyzip_concat' and n >= 2:
+            # the function runs BELOW a concatenation that is read BY KEY (key_zip above it): a KeyError / LookupError
+            # of the function travels through the concatenation's own key lookup
+            base = lazy_dataset.new({key_of(i): v for i, v in enumerate(vals)})
+            keys_ = [key_of(i) for i in range(n)]
+            h = max(1, n // 2)
+            cat = base[keys_[:h]].map(pull_fn).map(fn).concatenate(base[keys_[h:]].map(pull_fn).map(fn))
+            ds = base.key_zip(cat).map(lambda t: t[1])
         elif case.get('src') == 'concat' and n >= 2:
             h = max(1, n // 3)
             parts = [lazy_dataset.new(vals[:h]), lazy_dataset.new(vals[h:n - 1]), lazy_dataset.new(vals[n - 1:])]
@@ -230,7 +238,8 @@ def run_case(case, trace_lines=True):
             if case.get('shuffled'):
                 import numpy as np
                 ds = ds.shuffle(True, rng=np.random.RandomState(case['shuffled']))
-            ds = ds.map(pull_fn).map(fn)
+            if not (case.get('src') == 'keyzip_concat' and n >= 2):
+                ds = ds.map(pull_fn).map(fn)
             catch = case.get('catch', False)
             if catch is False:
                 ds = ds.prefetch(w, b)
@@ -742,6 +751,11 @@ def st_case(draw, profile):
                 case.pop('with_key', None)
             if case['catch'] is not False:
                 case.pop('with_key', None) if w > 1 else None
+        if kind == 'pf' and n >= 2 and not iter_fail and not case.get('shuffled') and 'dual' not in case \
+                and draw(st.integers(0, 3)) == 0:
+            case['src'] = 'keyzip_concat'
+            case.pop('with_key', None)
+            case.pop('src_none', None)
         if iter_fail:
             # the source fails when iteration over it starts (before the first example), nothing else fails
             case['iter_fail'] = draw(st.sampled_from(['VErrA', 'VErrC', 'VBase']))
